@@ -23,7 +23,7 @@ class B(list):
 
 def alt_actions_of(kind, nA):
     """another action set of the same kind and size (action sets may change between rounds)"""
-    if kind == "int01": return [7, 8, 9][:nA]
+    if kind in ("int01", "int1x", "int0x"): return [7, 8, 9][:nA]
     if kind == "probfloat": return [0.125, 0.375, 0.625][:nA]
     if kind == "str": return ["x", "y", "z"][:nA]
     if kind == "tuple": return [tuple(2 if i == j else 0 for i in range(max(nA, 2))) for j in range(nA)]
@@ -33,6 +33,8 @@ def alt_actions_of(kind, nA):
 
 def actions_of(kind, nA):
     if kind == "int01": return [0, 1, 2][:nA]
+    if kind == "int1x": return [1, 2, 3][:nA]          # holds the int 1 but not 0
+    if kind == "int0x": return [0, 2, 3][:nA]          # holds the int 0 but not 1
     if kind == "probfloat": return [0.25, 0.5, 0.75][:nA]
     if kind == "str": return ["a", "b", "c"][:nA]
     if kind == "tuple": return [tuple(1 if i == j else 0 for i in range(max(nA, 2))) for j in range(nA)]
@@ -43,8 +45,8 @@ def actions_of(kind, nA):
 class FmtLearner:
     """Writes its intended answers in one format / layout.  Intention for the row with context id c:
     action index c mod nA, probability PROBS[c mod 3], pmf BASE rotated by c mod nA, kwargs {'k': c}."""
-    def __init__(self, fmt, kw, layout, nA):
-        self.fmt = fmt; self.kw = kw; self.layout = layout; self.nA = nA; self.learned = []; self.calls = 0
+    def __init__(self, fmt, kw, layout, nA, oh=False):
+        self.fmt = fmt; self.kw = kw; self.layout = layout; self.nA = nA; self.learned = []; self.calls = 0; self.oh = oh
 
     @property
     def params(self): return {"family": "fmt"}
@@ -56,6 +58,7 @@ class FmtLearner:
         else:
             w = BASE[self.nA]; r = c % self.nA
             v = [w[(i + r) % self.nA] / 4 for i in range(self.nA)]
+            if self.oh: v = [1 if i == r else 0 for i in range(self.nA)]      # all mass on one action, written with ints
         if self.fmt.endswith("*"): v = {{"AX": "action", "AP": "action_prob", "PM": "pmf"}[base]: v}
         return v
 
@@ -107,13 +110,14 @@ def run(ctx):
     cases.sort(key=lambda c: json.dumps(c["case"], sort_keys=True))
     ctx.exhaustive = True
     ctx.sample(cases[len(cases) // 2], limit=1)
-    kinds = ["int01", "probfloat", "str", "tuple", "list", "sparse"]
+    kinds = ["int01", "int1x", "int0x", "probfloat", "str", "tuple", "list", "sparse"]
     for c in cases:
         cs = c["case"]; fmt, kw, layout, nA, bs, seed = cs["fmt"], cs["kw"], cs["layout"], cs["nA"], cs["bsize"], cs["seed"]
         for kind in kinds:
             # the property's domain: a value that could be read two ways needs the dict hint
             if fmt == "AX" and kind in ("tuple", "list", "sparse"): continue
             if fmt == "AX" and layout == "col": continue          # a bare column of actions IS the row layout
+            if cs.get("oh") and fmt == "PM" and layout != "none" and kind in ("int01", "int1x", "int0x"): continue   # a bare [0,1] over int actions in a batch reads equally as (action 0, prob 1): needs the hint (unbatched calls are protected by the 0/1 -> float conversion)
             if fmt == "PM" and layout == "col" and nA == 1: continue   # one column of numbers reads equally as a column of actions: needs the hint
             for vary in (False, True):      # the same action set every round / the sets A, B, A
                 ctx.case(json.dumps([cs, kind, vary], sort_keys=True))
@@ -129,7 +133,7 @@ def run(ctx):
 def one(SafeLearner, cs, expected, kind, vary=False):
     fmt, kw, layout, nA, bs, seed = cs["fmt"], cs["kw"], cs["layout"], cs["nA"], cs["bsize"], cs["seed"]
     acts_a = actions_of(kind, nA); acts_b = alt_actions_of(kind, nA)
-    lrn = FmtLearner(fmt, kw, layout, nA)
+    lrn = FmtLearner(fmt, kw, layout, nA, cs.get("oh", False))
     sl = SafeLearner(lrn, seed)
     exp_by_call = {}
     for e in expected: exp_by_call.setdefault(e["call"], []).append(e)
